@@ -166,7 +166,7 @@ def _parse_example(expr):
 
 # "for all argument values": the catalog shows ONE spelling per method; literal (non-column) arguments are varied here
 LITERAL_VARIANTS = {
-    "g.trimstr(0, 2)": ["g.trimstr(1, 3)", "g.trimstr(2, 3)", "g.trimstr(1, 1)", "g.trimstr(0, 0)", "g.trimstr(3, 7)"],
+    "g.trimstr(0, 2)": ["g.trimstr(1, 3)", "g.trimstr(2, 3)", "g.trimstr(1, 1)", "g.trimstr(0, 0)", "g.trimstr(3, 7)", "g.trimstr(3, 1)", "g.trimstr(2, 0)"],
     "row_id.is_in({1, 3})": ["row_id.is_in({2})", "row_id.is_in({0, 1, 2, 3})"],
     'g.mapv({"a": 1, "b": 2, "z": 26}, 0)': ['g.mapv({"a": 1}, 7)', 'g.mapv({"": 5, "b": 2}, -1)'],
     "z.coalesce(2)": ["z.coalesce(0)", "z.coalesce(-1.5)"],
